@@ -34,8 +34,8 @@ P = {
          'Theorems: replacen equals the statement\'s rewrite of the first n match ranges; borrowed iff no item; fast and slow paths coincide for constant replacers when the iterators agree; first error is returned; C11b: replacen of the model engine = the rewrite of the first n matches of the REFERENCE iteration with the replacer applied to reference captures (text = the real UTF-8 encoding, boundaries proved), borrowed iff that iteration is empty, never a panic; with a trailing resource stop the exact outcome is stated.'),
  'C12': ('proof', '6 C12', 'round-trip and decision theorems on the expander model, specification tokenizer = code + exhaustive correspondence',
          'Theorems: expansion(escape s) = s for both expanders, $$ -> $, verbatim copy without the substitution character, check soundness; C12b: the documented template syntax written as a specification tokenizer equals the expander of the code step by step for every template (C12_steps_eq_spec), token corollaries, compositionality. Tie: all templates to length 4/5 over the 14-character alphabet.'),
- 'C13': ('proof', '6 C13', 'structural-induction theorems on the reference semantics + correspondence of analysis facts',
-         "Theorems (all expressions, states, texts): C13_min_sound (no result shorter than min_size), C13_const_exact (exactly min_size when const_size; side conditions: single-character literals, no bare \\Z node, no usize saturation), C13_lookbehind_exact ('go back min_size, run the body' = 'some start ends exactly here'), C13_goback (fails rather than reading before the start), C13_accept_iff (look-behind rejected with the dedicated error iff a top-level alternative is not const-size), and in the engine stage (C01) the compiled look-behind computes the reference. Tie: per-node facts implementation vs model; oracle: enumerated match lengths vs facts."),
+ 'C13': ('proof', '6 C13', 'structural-induction theorems on the reference semantics + the analyzer regenerated from src/analyze.rs by a translator on every run and proved equal to the model + correspondence of analysis facts',
+         "Theorems (all expressions, states, texts): C13_min_sound (no result shorter than min_size), C13_const_exact (exactly min_size when const_size; side conditions: single-character literals, no bare \\Z node, no usize saturation), C13_lookbehind_exact ('go back min_size, run the body' = 'some start ends exactly here'), C13_goback (fails rather than reading before the start), C13_accept_iff (look-behind rejected with the dedicated error iff a top-level alternative is not const-size), and in the engine stage (C01) the compiled look-behind computes the reference. Translator tie (C13c): tools/rs2lean_analyze.py re-translates Analyzer::visit statement by statement into GeneratedAnalyze.lean on every run; C13_analyzer_translated_eq / _facts / C13_analyze_eq prove it equal to the hand-written minSize / constSize / isHard / group ranges for every expression, so a change of meaning in analyze.rs breaks a proof. Differential tie: per-node facts implementation vs model; an accepted look-behind the model rejects is still compared with the reference; oracle: enumerated match lengths vs facts."),
  'C14': ('proof', '6 C14', 'theorems on the parser model (flag seeding) + metamorphic differential',
          'Theorems (C14b, parser model, every byte string): the builder option seeds the parser flags exactly as a leading (?i) does - C14_parse_flag_partial under two side conditions each proved necessary by a counterexample theorem (known finding F20: P starting with a comment or a quantifier-like text); inner (?-i:..) negation by mutual induction on the reference semantics. Limits and delegate size options: in-process differential over the limit ladder (2^31..usize::MAX) on fancy and plain patterns.'),
  'C15': ('proof', '6 C15, 12.1', 'spec equations + compiler-correctness theorem + witness theorems + correspondence',
